@@ -206,7 +206,7 @@ def ms_script(m, pubs):
     return bytes([80 + m]) + b''.join(vs(p) for p in pubs) + bytes([80 + len(pubs), 0xae])
 
 
-def build_api_tx(rng, network='bitcoin', kinds=None, nin=None, nout=None, max_n=4, public_only=False):
+def build_api_tx(rng, network='bitcoin', kinds=None, nin=None, nout=None, max_n=4, public_only=False, tx_witness_type='segwit'):
     from bitcoinlib.transactions import Transaction
     from bitcoinlib.keys import Key
     kinds = kinds or KINDS
@@ -214,7 +214,7 @@ def build_api_tx(rng, network='bitcoin', kinds=None, nin=None, nout=None, max_n=
     nout = nout or rng.randrange(1, 4)
     ver = rng.choice([1, 2])
     lt = rng.choice([0, 0, 500000, 1700000000])
-    t = Transaction(version=ver, locktime=lt, network=network, witness_type='segwit')
+    t = Transaction(version=ver, locktime=lt, network=network, witness_type=tx_witness_type)
     ins, meta = [], []
 
     def rk():
